@@ -51,8 +51,12 @@ def butterfly(sess, run, funcs, fn):
     if s.check() != z3.sat:
         run.inconclusive.append(f'{tag}: precondition unsatisfiable (vacuous lemma)')
     sess.discharge_obligations(f'{tag}[{fn}] for every |w| <= B <= {Bmax}', obl, pre)
-    neg = z3.Solver(); neg.set('timeout', 30000); neg.add(base, B == (I32MAX if fwd else (1 << 30)), z3.Or(*[o['cond'] for o in obl]))
-    ctrl = neg.check()
+    ctrl = z3.unknown
+    for o in obl:      # one small query per obligation (a single disjunctive query timed out under machine load)
+        neg = z3.Solver(); neg.set('timeout', 120000); neg.add(base, B == (I32MAX if fwd else (1 << 30)), o['cond'])
+        ctrl = neg.check()
+        if ctrl == z3.sat:
+            break
     run.add_query({'name': f'{tag}: negative control (B one past the admissible bound makes an overflow obligation satisfiable)', 'engine': 'E2 int', 'verdict': 'holds' if ctrl == z3.sat else 'unknown', 'trivial': True}, core=False)
     if ctrl != z3.sat:
         run.inconclusive.append(f'{tag}: negative control did not find the overflow just outside the bound (lemma may be vacuous)')
@@ -269,8 +273,8 @@ def producer_bound(sess, run, funcs, f, kind, TB, Ls, cache):
             # best bound: q-1 if the result is a mont_reduce output, else structural
             bnd = None
             for cand in (LM.mr_bound((Q - 1) * (2 * Q)), Q - 1, P['L'] * TB + Q - 1):
-                s = z3.Solver(); s.set('timeout', 20000); s.add(*cons, z3.Or(out.t > cand, out.t < -cand))
-                if s.check() == z3.unsat:
+                import zutil
+                if zutil.check(*cons, z3.Or(out.t > cand, out.t < -cand), timeout_s=20) == z3.unsat:
                     bnd = cand
                     break
             if bnd is None:
@@ -413,6 +417,17 @@ def run(run, scr, tier, seed, only=None):
         to_mont_lemma(sess, run, funcs)
         TB = mat_vec_lemma(sess, run, funcs)
         zeta_premise(run, text)
+        sched = []
+        try:
+            import nttsched
+            nttsched.run(funcs, sched)
+        except Exception as e:  # noqa: BLE001 - the schedule lemmas strengthen the composition; the basis premise below decides
+            sched = [{'name': 'ntt / inv_ntt loop-nest schedule', 'verdict': 'refused', 'detail': repr(e)[:200]}]
+        for r in sched:
+            run.add_query({'name': r['name'] + (' :: ' + r['detail'] if r['verdict'] != 'holds' else ''), 'engine': 'E2 loop-step lemmas from arbitrary (m, len, start) on the MIR (z3 BV)',
+                           'verdict': 'holds' if r['verdict'] == 'holds' else 'unknown'}, core=r['verdict'] == 'holds')
+            if r['verdict'] != 'holds':
+                vlib.log(f'  [E2] schedule lemma not established ({r["verdict"]}): {r["name"][:80]} :: {r["detail"][:200]} -- the native basis premise decides')
         nb = LM.ntt_out_bound(Q - 1)
         run.add_query({'name': f'chain: ntt output bound for |input| < q is {nb} < 67058539 (to_mont / partial_reduce64 domain) and < 2^31', 'engine': 'arithmetic consequence of lemma Bf (8 layers)', 'verdict': 'holds' if nb < 67058539 else 'sat'})
         if nb >= 67058539:
@@ -465,7 +480,8 @@ def run(run, scr, tier, seed, only=None):
     run.samples = [{'obligation': q.get('name'), 'verdict': q.get('verdict'), 'solver_s': q.get('solver_s')} for q in run.queries[:14]]
     run.extra['bounds'] = ['butterfly lemmas: every loop state (j, len in {1,2,...,128}, j + len < 256), every zeta in [0,q) resp. (-q,0], every coefficient pair with |w| <= B, B symbolic up to 2^31-1-q (forward) / 2^30-1 (inverse)',
                            'closure lemmas: every coefficient value in the stated input range; index inside the polynomial symbolic',
-                           'range chain: all inv_ntt / to_mont / mat_vec_mul call sites found in the MIR, L in {4, 5, 7}', 'composition to "equals the negacyclic product" is pen and paper (linearity + basis premise) and outside the solver']
+                           'range chain: all inv_ntt / to_mont / mat_vec_mul call sites found in the MIR, L in {4, 5, 7}', 'schedule lemmas: one step of each loop of ntt / inv_ntt from an arbitrary state (m <= 256, len a power of two, start a multiple of 2 len): with the butterfly equations and premise Z the loop nest is the recurrence of Algorithms 41 / 42',
+                           'composition to "equals the negacyclic product" is pen and paper (same recurrence as the standard + convolution theorem; cross-checked by the basis premise) and outside the solver']
     return run.finish(
         rule='one SMT query per lemma obligation over all loop states / coefficient values within the symbolic bound; chain rows are arithmetic comparisons of solver-proved producer bounds with the consumer precondition; '
              'non-trivial = distinct obligation with a solver verdict',
